@@ -2293,6 +2293,9 @@ ok:
           start over again.
         */
     case SSL_HS_SERVER_HELLO:
+        /* The first hello announced TLS_FALLBACK_SCSV: so does this one
+           (the writer emits it from the session flag, the size must agree) */
+        options.fallbackScsv = ssl->extFlags.req_fallback_scsv;
         rc = matrixSslEncodeClientHello(
                 ssl, out, ssl->cipherSpec,
                 ssl->cipherSpecLen, requiredLen, NULL, &options);
